@@ -126,7 +126,29 @@ def run(ctx):
     for rn, facts, t in rets:
         okp = t[0] == "call" and t[1] in ("scipy.linalg.det", "numpy.linalg.det") and t[2][0][0] == "sub" and t[2][0][1][0] == "call" and t[2][0][1][1] in ("numpy.eye", "numpy.identity") \
             and "('+', (('c', -1), ('call', 'numpy.array', (('n', 'perm'),), ())))" in repr(t[2][0][2])
-    ctx.ob("R-BASE", ps, "sign == det(I[:, perm - 1]) (1-based permutation)", okp, "columns of the identity selected by perm - 1" if okp else "definition changed")
+    detp = "columns of the identity selected by perm - 1"
+    if not okp:
+        # other recognisable definitions: (a) a determinant whose column selection is not perm - 1 -> wrong base (violation);
+        # (b) transposition counting ("cycle sort"): each position must be revisited until it holds its own index (while), a single
+        # `if` per position leaves cycles of length >= 4 unsorted -> violation; a `while` version is accepted; anything else: unknown
+        okp, detp = None, "sign is computed in a form the checker does not recognise"
+        for rn, facts, t in rets:
+            if t[0] == "call" and t[1] in ("scipy.linalg.det", "numpy.linalg.det"):
+                okp, detp = False, f"determinant of {show(t[2][0])[:70]}: the permutation is not shifted from 1-based entries to 0-based column indices exactly once"
+        for lp in walk_no_nested(ps.node):
+            if isinstance(lp, ast.For) and isinstance(lp.target, ast.Name):
+                pv = lp.target.id
+                fixes = [x for x in ast.walk(lp) if isinstance(x, (ast.If, ast.While)) and isinstance(x.test, ast.Compare) and len(x.test.ops) == 1 and isinstance(x.test.ops[0], ast.NotEq)
+                         and pv in {y.id for y in ast.walk(x.test) if isinstance(y, ast.Name)}]
+                swaps = [x for x in ast.walk(lp) if isinstance(x, ast.Assign) and isinstance(x.targets[0], ast.Tuple) and isinstance(x.value, ast.Tuple) and len(x.targets[0].elts) == 2
+                         and [unparse(e) for e in x.targets[0].elts] == [unparse(e) for e in x.value.elts][::-1]]
+                if fixes and swaps:
+                    if all(isinstance(x, ast.While) for x in fixes):
+                        okp, detp = True, "transposition count of a cycle sort (each position repeated until fixed)"
+                    else:
+                        okp, detp = False, (f"`if {unparse(fixes[0].test)}` swaps at most once per position: after one transposition the position need not hold its own index "
+                                            "(cycles of length >= 4), so transpositions are missed and the parity is wrong for some permutations of 4 or more elements")
+    ctx.ob("R-BASE", ps, "sign == det(I[:, perm - 1]) (1-based permutation)", okp, detp, required=okp is not None)
     # enumerators
     up = m.func("unique_perms.perm_unique_helper")
     from .. import pmatch
